@@ -155,12 +155,20 @@ def _is_anon(b):
 
 
 def _words_of(b, out):
+    """words of the text boxes, keyed by the element (or pseudo-element) the text belongs to: {key: [words]}"""
     from weasyprint.formatting_structure import boxes
     b = _unwrap(b)
     if isinstance(b, boxes.TextBox):
-        if not b.element_tag.endswith('::marker'):
-            # U+200B alone: the box build.element_to_box adds to an otherwise empty list item
-            out.extend(w for w in b.text.split() if w != '\u200b')
+        tag = b.element_tag or ''
+        if tag.endswith('::marker'):
+            return
+        key = b.element.get('id') or b.element.tag if b.element is not None else '?'
+        if '::' in tag:
+            key += '::' + tag.split('::')[1]
+        # U+200B alone: the box build.element_to_box adds to an otherwise empty list item
+        ws = [w for w in b.text.split() if w != '\u200b']
+        if ws:
+            out.setdefault(key, []).extend(ws)
         return
     if (getattr(b, 'element_tag', None) or '').endswith('::marker'):
         return
@@ -189,6 +197,14 @@ def _ifc_items(b, items, top=None):
             items.append(['a', t])
 
 
+def _style_in_flow(b):
+    """is_in_normal_flow() as process_whitespace saw it (flex_children later overrides is_floated on flex items)"""
+    st = b.style
+    pos = st['position']
+    return not (st['float'] in ('left', 'right', 'footnote') or pos in ('absolute', 'fixed') or
+                (isinstance(pos, tuple) and pos[0] == 'running()'))
+
+
 def _host_in_flow(chain):
     """the element box whose children the inline content was when element_to_box processed it: nearest
     non-anonymous ancestor that is not an inline box (for a table: float/position have moved to its wrapper)"""
@@ -197,8 +213,8 @@ def _host_in_flow(chain):
         b = chain[i]
         if not _is_anon(b) and not isinstance(b, (boxes.InlineBox, boxes.LineBox)):
             if isinstance(b, boxes.TableBox) and i > 0 and chain[i - 1].is_table_wrapper:
-                return bool(chain[i - 1].is_in_normal_flow()), b.element_tag
-            return bool(b.is_in_normal_flow()), b.element_tag
+                return _style_in_flow(chain[i - 1]), b.element_tag
+            return _style_in_flow(b), b.element_tag
     return True, None
 
 
@@ -228,7 +244,7 @@ def build_and_render(case):
     from weasyprint.formatting_structure import build
     out = {}
     root = build.build_formatting_structure(*_parse_base(case['html']))
-    ifcs, tables, words = [], [], []
+    ifcs, tables, words = [], [], {}
     _collect(root, [], ifcs, tables, False)
     _words_of(root, words)
     out['pre'] = dict(tree=_tree(root), ifcs=ifcs, tables=tables, words=words, colgroups=_colgroups(root))
@@ -246,21 +262,11 @@ def build_and_render(case):
             out['post_crash'] = dict(type=type(exc).__name__, msg=str(exc)[:200], site=site,
                                      tb=''.join(traceback.format_exception(type(exc), exc, exc.__traceback__))[-1200:])
             return out
-        pifcs, ptables, pwords = [], [], []
+        pifcs, ptables, pwords = [], [], {}
         for p in pages:
             _collect(p, [], pifcs, ptables, True)
             _words_of(p, pwords)
-        # text of each block container that holds lines, lines in order
-        blocks, cur = [], None
-        for i in pifcs:
-            txt = ''.join(it[4] if it[0] == 't' else '￼' for it in i['items'])
-            if cur is not None and cur[0] == i['block']:
-                cur[1].append(txt)
-            else:
-                cur = [i['block'], [txt]]
-                blocks.append(cur)
-        out['post'] = dict(trees=[_tree(p) for p in pages], words=pwords, npages=len(pages),
-                           blocks=[b[1] for b in blocks])
+        out['post'] = dict(trees=[_tree(p) for p in pages], words=pwords, npages=len(pages))
     return out
 
 
@@ -293,3 +299,56 @@ def display_box(case):
                 walk(c)
     walk(root)
     return dict(display=list(disp), float=flt, cls=type(found[0]).__name__ if found else None, n=len(found))
+
+
+# ------------------------------------------------------------------ fix-ups, direct calls on synthetic boxes
+
+_BASE = {}
+
+
+def _base_style():
+    if 'style' not in _BASE:
+        from tests.testing_utils import parse_all
+        root = parse_all('<p>x</p>')
+        _BASE['style'] = root.children[0].style
+    return _BASE['style']
+
+
+def _mkbox(t):
+    """t = [kind, attrs dict, kids] -> real box.  attrs: flow, abs, empty, space, wsonly, grp, capbot"""
+    import xml.etree.ElementTree as ET
+    from weasyprint.formatting_structure import boxes
+    kind, a, kids = t
+    st = _base_style().copy()
+    st['float'] = 'none'
+    st['position'] = 'static'
+    if a.get('abs'):
+        st['position'] = 'absolute'
+    elif not a.get('flow', True):
+        st['float'] = 'left'
+    st['white_space'] = 'normal'
+    st['caption_side'] = 'bottom' if a.get('capbot') else 'top'
+    st['display'] = {1: ('table-header-group',), 2: ('table-footer-group',)}.get(a.get('grp', 0), ('table-row-group',)) \
+        if kind == 'TableRowGroupBox' else ('block', 'flow')
+    st['border_collapse'] = 'separate'
+    el = ET.Element('x')
+    if kind == 'TextBox':
+        b = boxes.TextBox('x', st, el, 'x')
+        b.text = '' if a.get('empty') else ' ' if a.get('space') else ' \n ' if a.get('wsonly') else 'x'
+        return b
+    return getattr(boxes, kind)('x', st, el, [_mkbox(k) for k in kids])
+
+
+def fix_atb(case):
+    from weasyprint.formatting_structure import build
+    return _tree(build.anonymous_table_boxes(_mkbox(case['tree'])))
+
+
+def fix_iib(case):
+    from weasyprint.formatting_structure import build
+    return _tree(build.inline_in_block(_mkbox(case['tree'])))
+
+
+def fix_bii(case):
+    from weasyprint.formatting_structure import build
+    return _tree(build.block_in_inline(_mkbox(case['tree'])))
